@@ -14,6 +14,14 @@ def enum_const_table(facts, fn, adt):
     variant name -> constant returned.  Fails closed on any other shape."""
     discr = facts.variant_discr(adt)
     leaves = PathEnum(fn, facts).run()
+    rets = [lf for lf in leaves if lf.kind == "return"]
+    if len(rets) == 1 and not rets[0].conds:
+        # `fn raw(self) -> &[u8] { self.to_str().as_bytes() }`: the table of the function it forwards to
+        r = rets[0].ret()
+        while r[0] in ("ref", "deref") or (r[0] == "call" and r[1].split("::")[0] in ("std", "core", "alloc") and r[1].rsplit("::", 1)[-1] in ("as_bytes", "as_str", "as_ref", "deref") and len(r[2]) == 1):
+            r = r[1] if r[0] in ("ref", "deref") else r[2][0]
+        if r[0] == "call" and r[1] in facts.fns and r[1] != fn.name and len(r[2]) == 1 and strip_refs(r[2][0]) == ("arg", 1):
+            return enum_const_table(facts, facts.fns[r[1]], adt)
     table = {}
     for lf in leaves:
         if lf.kind != "return":
@@ -143,7 +151,7 @@ def string_matcher(facts, fn, folds=None):
     """For a matcher that compares one derived string against constants with PartialEq::eq:
     returns (table {const: variant-or-shape}, subject term, list of leaves).
     folds: {path of a table function: {variant: constant}} -- `X::as_str(Variant)` on the constant side is its table entry."""
-    leaves = PathEnum(fn, facts).run()
+    leaves = PathEnum(fn, facts, lower=True).run()
 
     def const_side(y):
         y = strip_refs(y)
